@@ -239,9 +239,11 @@ def channel_case(p, res):
         # ------------- (i-z) signals with exact zeros (on-off keying, zero-padded bursts): the SNR refers to the mean power of the WHOLE signal
         if par == "snr":
             idx = torch.arange(N)
-            for mname, mask in (("on-off", (idx % 2 == 0)), ("burst", idx < N // 4), ("sparse", idx % 16 == 3)):
+            for mname, mask in (("on-off", (idx % 2 == 0)), ("burst", idx < N // 4), ("sparse", idx % 16 == 3), ("tail-burst,N-37", idx >= N - 37 - 50), ("head-burst,N-37", idx < 45)):
                 for val in (values[1], values[len(values) // 2], values[-2]):
                     x = signal(N, 4.0, cplx, 0) * mask.to(torch.float32)
+                    if "N-37" in mname:
+                        x = x[: N - 37]          # a length that is not a multiple of 64 (nor of any power of two), energy in the last / first samples only
                     run, ref = build(ch, par, val, mode)
                     try:
                         with Seam(Quantile()):
